@@ -39,6 +39,7 @@ theorem step_static (s : State) (e : Event) : Static (step s e).1 = Static s := 
     | none => rfl
     | some i => simp [Static, setSession_static]
   | pkt a b => rfl
+  | ohp b => rfl
 
 /-- session of link `j` after modifying link `i` -/
 theorem setSession_session (ls : List Link) (i j : Nat) (f : St → St) :
@@ -106,13 +107,26 @@ theorem run_is_step (s : State) (h : List Event) : ∀ t ∈ run s h, t.2.2 = (s
     · rfl
     · exact ih _ t ht
 
-/-- **Invariant** (`down_never_forwarded`): in every history of BFD messages, timeouts and packets, in any
-    interleaving, whenever a packet is forwarded over interface `e`, the link behind `e` has, at that
-    moment, either no BFD session or a session in state Up. -/
-theorem down_never_forwarded (s0 : State) (h : List Event) :
-    ∀ t ∈ run s0 h, ∀ e, t.2.2 = .fwd e →
+/-- **The full statement**: in every history of BFD messages, timeouts and packets, in any interleaving,
+    whenever a packet is forwarded over interface `e`, the link behind `e` has, at that moment, either no
+    BFD session or a session in state Up. -/
+def DownNeverForwarded : Prop :=
+  ∀ (s0 : State) (h : List Event), ∀ t ∈ run s0 h, ∀ e, t.2.2 = .fwd e →
+    ∃ l, t.1.link e = some l ∧ (l.session = none ∨ l.session = some .up)
+
+def _root_.Scion.LinkDown.Event.isOhp : Event → Bool
+  | .ohp _ => true
+  | _ => false
+
+/-- **Invariant, proved for SCION- and EPIC-path packets** (`_partial`: one-hop-path packets are excluded —
+    `processOHP` forwards them without looking at the link state, see `ohp_forwarded_over_down_link`; this is
+    the recorded known finding `C15/ohp-forwarded-over-down-link`). In every history, in any interleaving and
+    whatever one-hop packets are interspersed, a SCION/EPIC packet is forwarded over interface `e` only in a
+    state where the link behind `e` has no BFD session or its session is Up. -/
+theorem down_never_forwarded_partial (s0 : State) (h : List Event) :
+    ∀ t ∈ run s0 h, t.2.1.isOhp = false → ∀ e, t.2.2 = .fwd e →
       ∃ l, t.1.link e = some l ∧ (l.session = none ∨ l.session = some .up) := by
-  intro t ht e hout
+  intro t ht hno e hout
   have hs := run_is_step s0 h t ht
   rw [hout] at hs
   cases hev : t.2.1 with
@@ -124,6 +138,7 @@ theorem down_never_forwarded (s0 : State) (h : List Event) :
     rw [hev] at hs
     simp only [step] at hs
     cases hi : t.1.linkIdx ifID <;> simp [hi] at hs
+  | ohp b => rw [hev] at hno; cases hno
   | pkt a b =>
     rw [hev] at hs
     simp only [step, egressUp] at hs
@@ -137,6 +152,20 @@ theorem down_never_forwarded (s0 : State) (h : List Event) :
         subst hs
         exact ⟨l, hl, (isUp_iff l).mp hu⟩
       · by_cases hsc : l.scope ≠ .external <;> simp [hu, hsc] at hs
+
+/-- **Negation witness for the full statement**: a one-hop packet is forwarded over an external link
+    whose session is Down (the model reproduces `processOHP`; reproduced on the real router by the
+    engine, key `C15/ohp-forwarded-over-down-link`). -/
+theorem ohp_forwarded_over_down_link : ¬ DownNeverForwarded := by
+  intro h
+  let s0 : State := { localIA := 5, links := [⟨.internal, 0, none⟩, ⟨.external, 1, some .down⟩],
+                      ifaces := [(0, 0), (1, 1)] }
+  obtain ⟨l, hl, hu⟩ := h s0 [.ohp 1] (s0, .ohp 1, .fwd 1) (by simp [run, step]) 1 rfl
+  have : l = ⟨.external, 1, some .down⟩ := by
+    have : s0.link 1 = some ⟨.external, 1, some .down⟩ := by decide
+    rw [this] at hl; exact (Option.some.inj hl).symm
+  subst this
+  rcases hu with hu | hu <;> cases hu
 
 /-- **The right SCMP answer**: in every history, a packet that would use interface `e` while the link
     behind it is not up is answered with ExternalInterfaceDown (external link) naming the local AS (the
@@ -168,6 +197,7 @@ theorem no_bfd_stays (s : State) (e : Event) (j : Nat) (l : Link)
     ∃ l', (step s e).1.links[j]? = some l' ∧ l'.session = none ∧ l'.scope = l.scope := by
   cases e with
   | pkt a b => exact ⟨l, hl, hn, rfl⟩
+  | ohp b => exact ⟨l, hl, hn, rfl⟩
   | recv ifID r =>
     simp only [step]
     cases s.linkIdx ifID with
